@@ -6,6 +6,7 @@ Driver for C08: one operation per line on stdin, one result per line on stdout.
   series <hex>      Decoder.DecodeSeries, parse phase
   strtok <hex>      strtoken.Parse
   nest <entry> <hex> <count> <hex> <count> ...   the entry point on the segments repeated and concatenated
+  drift <entry> <hex> <count> ...   same as nest (the harness additionally requires jsonx.tooDeep)
   facts             the nesting limit the model runs with
   lex <hex>         the token stream the jsonx parser reads (types, positions) and the lexer's errors
 
@@ -89,6 +90,10 @@ def step (_ : Unit) (line : String) : Unit × String :=
       | none => "bad-op"
       | some bs => runOp op bs
     | "nest" :: op :: segs =>
+      match segments segs with
+      | none => "bad-op"
+      | some bs => runOp op bs
+    | "drift" :: op :: segs =>
       match segments segs with
       | none => "bad-op"
       | some bs => runOp op bs
